@@ -44,6 +44,8 @@ IMPL_ENV = {"OMP_NUM_THREADS": "1", "UBSAN_OPTIONS": "print_stacktrace=1:symboli
             "ASAN_OPTIONS": "detect_leaks=0:allocator_may_return_null=1:symbolize=0"}
 
 ASSUMPTIONS = [
+    "the readers receive USED output vectors (ptr / col / val of length 0, 7 or 14 with junk contents, chosen from the file size): the model "
+    "returns fresh lists, so any dependence on the previous contents of the caller's vectors is a mismatch",
     "text<->number conversion of VALUES is an oracle in the Coq model (vread (vprint v ++ rest) = Some (v, rest)); "
     "validated here bitwise on denormals, extreme exponents, -0 and random bit patterns for double/float/complex; "
     "inf/nan are written as 'inf'/'nan' and refused by the reader (excluded by the property's 'finite values')",
